@@ -132,11 +132,28 @@ theorem C07_setUp_id (c : Cfg) (img : Img) (h : c.enforceInitialPositivity = fal
 theorem C07_setUp_pos (c : Cfg) (img : Img) (h : c.enforceInitialPositivity = true) : ∀ x ∈ setUp c img, 0 < x :=
   setUp_pos c img h
 
+/-- … so the side condition of the restart theorem below is not merely sufficient: it is *exactly* "`set_up` of the
+    resumed run does not change the saved image". -/
+theorem C07_setUp_id_iff (c : Cfg) (img : Img) :
+    setUp c img = img ↔ (c.enforceInitialPositivity = false ∨ ∀ x ∈ img, 0 < x) := by
+  constructor
+  · intro h
+    cases hb : c.enforceInitialPositivity with
+    | false => exact Or.inl rfl
+    | true =>
+      right
+      intro x hx
+      rw [← h] at hx
+      exact setUp_pos c img hb x hx
+  · exact setUp_id c img
+
 /-- "A reconstruction resumed at sub-iteration k+1 from the image saved after sub-iteration k produces the same
     images as the uninterrupted run."  The state after sub-iteration `k` is `(image_k, k)` only (the model has no other
     state, and the correspondence check validates exactly this model), so the uninterrupted run is the run to `k`
     followed by the run from `k+1` over `set_up image_k` — PROVIDED `set_up` of the resumed run does not change the
-    image: `enforce_initial_positivity = false`, or image_k strictly positive.
+    image: `enforce_initial_positivity = false`, or image_k strictly positive (by `C07_setUp_id_iff` this is exactly
+    "`set_up` leaves image_k alone"; the inputs excluded are those of the known finding
+    `restart:enforce-initial-positivity-lifts-exact-zeros`, see the negative witnesses below).
     (`hfull`: no non-finite value occurred up to `k`.)  Fixed subset order only (randomised order: C06). -/
 theorem C07_restart_eq_partial (c : Cfg) (start k last : Nat) (img : Img) (h1 : start ≤ k + 1) (h2 : k ≤ last)
     (hfull : (reconstruct c start k img).length = k + 1 - start)
@@ -145,6 +162,30 @@ theorem C07_restart_eq_partial (c : Cfg) (start k last : Nat) (img : Img) (h1 : 
       reconstruct c start k img ++
         reconstruct c (k + 1) last (setUp c ((reconstruct c start k img).getLastD img)) := by
   rw [setUp_id c _ hpos]
+  exact reconstruct_split c start k last img h1 h2 hfull
+
+/-- `enforce_initial_positivity` acts in `set_up` only: the sub-iterations of a reconstruction do not depend on it (so the
+    whole effect of the option on a resumed run is what `setUp` does to the saved image; the harness checks the same on
+    the real class: the resumed run with the option on = the run with the option off from the lifted image, bitwise). -/
+theorem C07_enforce_only_in_setUp (c : Cfg) (b : Bool) (start last : Nat) (img : Img) :
+    reconstruct { c with enforceInitialPositivity := b } start last img = reconstruct c start last img := by
+  simp only [reconstruct]
+  exact runFrom_enforce_irrelevant c b _ _ img
+
+/-- "A reconstruction resumed at sub-iteration k+1 from the image saved after sub-iteration k produces the same
+    images as the uninterrupted run" — at full strength (every configuration, every image, zeros included) when the
+    resumed run is made with `enforce initial positivity condition := 0` (what STIR's own restarting scripts and test
+    parameter files do): the state after sub-iteration `k` is `(image_k, k)` and nothing else.
+    (`hfull`: no non-finite value occurred up to `k`.)  Fixed subset order only (randomised order: C06). -/
+theorem C07_restart_eq_option_off (c : Cfg) (start k last : Nat) (img : Img) (h1 : start ≤ k + 1) (h2 : k ≤ last)
+    (hfull : (reconstruct c start k img).length = k + 1 - start) :
+    reconstruct c start last img =
+      reconstruct c start k img ++
+        reconstruct { c with enforceInitialPositivity := false } (k + 1) last
+          (setUp { c with enforceInitialPositivity := false } ((reconstruct c start k img).getLastD img)) := by
+  rw [setUp_id _ _ (Or.inl rfl)]
+  simp only [reconstruct] at hfull ⊢
+  rw [runFrom_enforce_irrelevant c false]
   exact reconstruct_split c start k last img h1 h2 hfull
 
 /-- witness for the side condition: 2 voxels, 2 subsets, voxel 1 has zero counts in subset 0 (numerator 0), default
@@ -156,8 +197,9 @@ def restartWitness : Cfg :=
     sens := fun _ => [1, 1], priorGrad := fun _ => [0, 0],
     interUpdateFilter := none, interIterationFilter := none }
 
-/-- **negative witness** (replayed on the real class by the harness: KNOWN-CANDIDATE
-    `restart:enforce-initial-positivity-lifts-exact-zeros`): the uninterrupted run gives `[2,0], [2,0]`; resuming at
+/-- **negative witness** (the class is found on the real code by the harness: KNOWN-CANDIDATE
+    `restart:enforce-initial-positivity-lifts-exact-zeros`; zeros from zero counts occur in its random Poisson cases,
+    zeros from a zero subset sensitivity in its deterministic reproduction): the uninterrupted run gives `[2,0], [2,0]`; resuming at
     sub-iteration 2 from the saved `[2,0]` gives `[2, 2·10⁻⁶]` because `set_up` lifts the exact zero. -/
 theorem C07_restart_fails_with_enforced_positivity :
     reconstruct restartWitness 1 2 [1, 1] = [[2, 0], [2, 0]] ∧
@@ -179,6 +221,44 @@ theorem C07_restart_fails_with_enforced_positivity :
   refine ⟨e1, e2, ?_⟩
   rw [e1, e2, e3]
   norm_num
+
+/-- the same with the zero produced by the clause "(zero where the subset sensitivity s_S is zero)" of the property
+    itself instead of zero counts: voxel 1 is not seen by subset 0 (sensitivity 0, numerator 0), seen by subset 1 -/
+def restartWitnessSens : Cfg :=
+  { restartWitness with sens := fun S => if S = 0 then [1, 0] else [1, 1] }
+
+/-- **negative witness**, zero-subset-sensitivity flavour (this is the flavour of the deterministic reproduction on the
+    real class in `run_restart_witness` of the harness: uniform counts, all defaults) -/
+theorem C07_restart_fails_zero_subset_sensitivity :
+    reconstruct restartWitnessSens 1 2 [1, 1] = [[2, 0], [2, 0]] ∧
+    reconstruct restartWitnessSens 2 2 (setUp restartWitnessSens [2, 0]) = [[2, 1 / 500000]] ∧
+    reconstruct restartWitnessSens 1 2 [1, 1] ≠
+      reconstruct restartWitnessSens 1 1 [1, 1] ++ reconstruct restartWitnessSens 2 2 (setUp restartWitnessSens [2, 0]) := by
+  have e1 : reconstruct restartWitnessSens 1 2 [1, 1] = [[2, 0], [2, 0]] := by
+    norm_num [reconstruct, runFrom, subIter, updateEstimate, restartWitnessSens, restartWitness, subsetNum, smallValue, maxElem,
+      divideSmallNum, interUpdateFiltered, zip4With, updVoxel, denom, divide1, absR, mulExt, thresholdUpperLower, allFin,
+      endOfIteration]
+  have e2 : reconstruct restartWitnessSens 2 2 (setUp restartWitnessSens [2, 0]) = [[2, 1 / 500000]] := by
+    norm_num [reconstruct, runFrom, subIter, updateEstimate, restartWitnessSens, restartWitness, subsetNum, smallValue, maxElem,
+      divideSmallNum, interUpdateFiltered, zip4With, updVoxel, denom, divide1, absR, mulExt, thresholdUpperLower, allFin,
+      endOfIteration, setUp, thresholdMinToSmallPositive, minPositive, smallNum]
+  have e3 : reconstruct restartWitnessSens 1 1 [1, 1] = [[2, 0]] := by
+    norm_num [reconstruct, runFrom, subIter, updateEstimate, restartWitnessSens, restartWitness, subsetNum, smallValue, maxElem,
+      divideSmallNum, interUpdateFiltered, zip4With, updVoxel, denom, divide1, absR, mulExt, thresholdUpperLower, allFin,
+      endOfIteration]
+  refine ⟨e1, e2, ?_⟩
+  rw [e1, e2, e3]
+  norm_num
+
+/-- … and on both witnesses the resumed run with the option off reproduces the uninterrupted run (instance of
+    `C07_restart_eq_option_off`; computed) -/
+example : reconstruct restartWitnessSens 1 2 [1, 1] =
+    reconstruct restartWitnessSens 1 1 [1, 1] ++
+      reconstruct { restartWitnessSens with enforceInitialPositivity := false } 2 2
+        (setUp { restartWitnessSens with enforceInitialPositivity := false } [2, 0]) := by
+  norm_num [reconstruct, runFrom, subIter, updateEstimate, restartWitnessSens, restartWitness, subsetNum, smallValue, maxElem,
+    divideSmallNum, interUpdateFiltered, zip4With, updVoxel, denom, divide1, absR, mulExt, thresholdUpperLower, allFin,
+    endOfIteration, setUp]
 
 /-! ## Non-vacuity: concrete instances satisfying the hypotheses -/
 
